@@ -2,6 +2,7 @@ package table
 
 import (
 	"fmt"
+	"sync"
 	"testing"
 	"time"
 
@@ -82,6 +83,14 @@ func c12Body(c *run.Ctx) {
 		s.Label("update_" + where)
 		nontrivial = true
 	}
+	// an update issued from inside the callback that delivers a hand's first snapshot: the
+	// hand has started (game.Start() published that snapshot) but startGame has not
+	// returned yet - the earliest moment that is unambiguously "while the hand is running"
+	var cbMu sync.Mutex
+	var cbPlan *pokertable.TableBlindState // drawn before the hand on the test goroutine
+	cbDone := false
+	cbAtCreate := false
+	cbGame := ""
 	var hooks sim.Hooks
 	hooks.Opened = func(s *sim.Sim, h *sim.Hand) {
 		anteSeen, blindsRequested = false, false
@@ -167,6 +176,20 @@ func c12Body(c *run.Ctx) {
 		}
 	}
 	hooks.AtDecision = func(s *sim.Sim, d *sim.Decision) {
+		cbMu.Lock()
+		if cbDone && cbPlan != nil {
+			latest = *cbPlan
+			if cbAtCreate {
+				c.Ch.Note("  UpdateBlind(%+v) while the backend was creating hand %d", latest, s.Cur.N)
+				s.Label("update_while_hand_is_created")
+			} else {
+				c.Ch.Note("  UpdateBlind(%+v) inside the callback of hand %d's first snapshot", latest, s.Cur.N)
+				s.Label("update_in_first_snapshot_callback")
+			}
+			nontrivial = true
+			cbPlan = nil
+		}
+		cbMu.Unlock()
 		if choose.Chance(c.Ch, "blind.inhand", 8) {
 			b := drawBlind(s, s.Cfg.Rule == pokertable.CompetitionRule_ShortDeck)
 			if choose.Chance(c.Ch, "blind.break", 15) {
@@ -188,6 +211,35 @@ func c12Body(c *run.Ctx) {
 		inForce = s.Cfg.Blind
 		latest = s.Cfg.Blind
 		level = s.Cfg.Blind.Level
+		// moment 1: while the backend creates the hand (inside startGame, after the hand
+		// options were built): the harness owns this point through its backend wrapper
+		if orig := s.BE.DeckFn; orig != nil {
+			s.BE.DeckFn = func(opts *pokerface.GameOptions, gs *pokerface.GameState) []string {
+				cbMu.Lock()
+				if cbPlan != nil && !cbDone && cbAtCreate {
+					cbDone = true
+					b := *cbPlan
+					s.TE.UpdateBlind(b.Level, b.Ante, b.Dealer, b.SB, b.BB)
+				}
+				cbMu.Unlock()
+				return orig(opts, gs)
+			}
+		}
+		// moment 2: inside the callback that delivers the hand's first snapshot
+		s.InCallbackLive = func(sm *sim.Sim, name string, live, clone *pokertable.Table) {
+			if name != pokertable.TableStateEvent_GameUpdated || clone.State.GameState == nil {
+				return
+			}
+			cbMu.Lock()
+			defer cbMu.Unlock()
+			if cbPlan == nil || cbDone || cbAtCreate || clone.State.GameState.GameID == cbGame {
+				return
+			}
+			// first snapshot of a new hand
+			cbDone = true
+			b := *cbPlan
+			sm.TE.UpdateBlind(b.Level, b.Ante, b.Dealer, b.SB, b.BB)
+		}
 	}
 	// negative obligation: while the level is a break, no hand opens
 	expectNoOpen := func(s *sim.Sim, why string) {
@@ -226,6 +278,17 @@ func c12Body(c *run.Ctx) {
 			}
 		}
 		inForce = latest
+		cbMu.Lock()
+		cbPlan, cbDone = nil, false
+		if g := s.Now().State.GameState; g != nil {
+			cbGame = g.GameID
+		}
+		if choose.Chance(c.Ch, "blind.incallback", 20) {
+			b := drawBlind(s, s.Cfg.Rule == pokertable.CompetitionRule_ShortDeck)
+			cbPlan = &b
+			cbAtCreate = choose.Chance(c.Ch, "blind.atcreate", 50)
+		}
+		cbMu.Unlock()
 		return true
 	}
 	o.AfterHand = func(s *sim.Sim, h *sim.Hand) {
